@@ -172,14 +172,17 @@ def _abs1(x):
     return T.app("abs", x)
 
 
-def abs(x):  # noqa: A001
+def abs(x, out=None):  # noqa: A001
     if _is_scalar(x):
         return _abs1(x)
     x = _arr(x)
-    out = _np.empty(x.shape, dtype=object)
+    res = _np.empty(x.shape, dtype=object)
     for idx in _np.ndindex(x.shape):
-        out[idx] = _abs1(x[idx])
-    return out
+        res[idx] = _abs1(x[idx])
+    if out is not None:      # numpy's in-place form: the buffer is overwritten and returned (it may be the argument itself)
+        out[...] = res
+        return out
+    return res
 
 
 absolute = abs
@@ -540,9 +543,13 @@ def sum(a, axis=None, **k):  # noqa: A001
     return _np.sum(a, axis=axis)
 
 
-def einsum(spec, *ops, **k):
+def einsum(spec, *ops, out=None, **k):
     ops = [o if isinstance(o, _np.ndarray) and o.dtype == object else _arr(o) for o in ops]
-    return _np.einsum(spec, *ops)
+    res = _np.einsum(spec, *ops)
+    if out is not None:      # numpy's in-place form: the buffer is overwritten and returned
+        out[...] = res
+        return out
+    return res
 
 
 def matmul(a, b):
